@@ -366,3 +366,114 @@ pub proof fn lemma_upd_count(n: &NoGood, tv: Seq<Term>, k: int)
 }
 #[verifier::external_body]
 fn __o_vec_as_slice(v: &Vec<Term>) -> (r: &[Term]) ensures r@ == v@ { v.as_slice() }
+
+// ---- propagation strength (what the search's progress relies on; not part of C18's three clauses)
+// n is unit under o: exactly one literal of n is not assigned by o and every other literal of n is matched by o
+pub open spec fn unit_under(n: &NoGood, o: &NoGood) -> bool {
+    n.act().difference(o.act()).len() == 1 && forall|x: u32| n.act().contains(x) && o.act().contains(x) ==> (n.val().contains(x) == o.val().contains(x))
+}
+pub open spec fn pairs_consistent(p: Seq<(usize, bool)>, k: int) -> bool { forall|i: int, j: int| 0 <= i < j < k && p[i].0 == p[j].0 ==> p[i].1 == p[j].1 }
+pub open spec fn holds_pairs(n: &NoGood, p: Seq<(usize, bool)>, k: int) -> bool {
+    forall|i: int| 0 <= i < k ==> n.act().contains((#[trigger] p[i]).0 as u32) && (n.val().contains(p[i].0 as u32) == p[i].1)
+}
+// the literal a unit nogood concludes: its one open variable, with the value that avoids the nogood
+pub open spec fn unit_var(n: &NoGood, o: &NoGood) -> u32 { choose|x: u32| n.act().difference(o.act()).contains(x) }
+pub open spec fn unit_pair(n: &NoGood, o: &NoGood) -> (usize, bool) { (unit_var(n, o) as usize, !n.val().contains(unit_var(n, o))) }
+pub proof fn lemma_unit_var(n: &NoGood, o: &NoGood, p: u32)
+    requires unit_under(n, o), n.act().contains(p), !o.act().contains(p),
+    ensures unit_var(n, o) == p
+{
+    let d = n.act().difference(o.act());
+    assert(d.contains(p));
+    lemma_singleton(d, p);
+}
+// the conclusions of one size-bucket do not contradict each other
+pub open spec fn bucket_consistent(bucket: Seq<NoGood>, o: &NoGood) -> bool {
+    forall|i: int, j: int| 0 <= i < bucket.len() && 0 <= j < bucket.len() && #[trigger] unit_under(&bucket[i], o) && #[trigger] unit_under(&bucket[j], o)
+        && unit_var(&bucket[i], o) == unit_var(&bucket[j], o) ==> unit_pair(&bucket[i], o).1 == unit_pair(&bucket[j], o).1
+}
+pub open spec fn has_pair(out: Seq<(usize, bool)>, p: (usize, bool)) -> bool { exists|m: int| 0 <= m < out.len() && out[m] == p }
+pub open spec fn from_unit(bucket: Seq<NoGood>, k: int, o: &NoGood, p: (usize, bool)) -> bool { exists|j: int| 0 <= j < k && j < bucket.len() && #[trigger] unit_under(&bucket[j], o) && unit_pair(&bucket[j], o) == p }
+// collected conclusions of the first k nogoods of a bucket: exactly the unit pairs
+pub open spec fn collected(bucket: Seq<NoGood>, k: int, o: &NoGood, out: Seq<(usize, bool)>) -> bool {
+    &&& forall|j: int| 0 <= j < k && j < bucket.len() && #[trigger] unit_under(&bucket[j], o) ==> has_pair(out, unit_pair(&bucket[j], o))
+    &&& forall|m: int| 0 <= m < out.len() ==> from_unit(bucket, k, o, #[trigger] out[m])
+}
+pub proof fn lemma_collected_step(bucket: Seq<NoGood>, k: int, o: &NoGood, out: Seq<(usize, bool)>, c: Option<(usize, bool)>)
+    requires 0 <= k < bucket.len(), collected(bucket, k, o, out), c.is_some() <==> unit_under(&bucket[k], o), c.is_some() ==> c.unwrap() == unit_pair(&bucket[k], o),
+    ensures collected(bucket, k + 1, o, if c.is_some() { out.push(c.unwrap()) } else { out })
+{
+    let out2 = if c.is_some() { out.push(c.unwrap()) } else { out };
+    assert forall|j: int| 0 <= j < k + 1 && j < bucket.len() && #[trigger] unit_under(&bucket[j], o) implies has_pair(out2, unit_pair(&bucket[j], o)) by {
+        if j < k { let m = choose|m: int| 0 <= m < out.len() && out[m] == unit_pair(&bucket[j], o); assert(out2[m] == out[m]); }
+        else { assert(out2[out.len() as int] == c.unwrap()); }
+    }
+    assert forall|m: int| 0 <= m < out2.len() implies from_unit(bucket, k + 1, o, #[trigger] out2[m]) by {
+        if m < out.len() { assert(out2[m] == out[m]); assert(from_unit(bucket, k, o, out[m])); let j = choose|j: int| 0 <= j < k && j < bucket.len() && #[trigger] unit_under(&bucket[j], o) && unit_pair(&bucket[j], o) == out[m]; assert(unit_under(&bucket[j], o)); }
+        else { assert(unit_under(&bucket[k], o)); }
+    }
+}
+// a consistent bucket: the assignment built from its conclusions exists and holds every concluded variable
+pub proof fn lemma_bucket_props(bucket: Seq<NoGood>, o: &NoGood, out: Seq<(usize, bool)>, n: Option<NoGood>)
+    requires collected(bucket, bucket.len() as int, o, out),
+        n.is_some() <==> (out.len() > 0 && pairs_consistent(out, out.len() as int)),
+        n.is_some() ==> holds_pairs(&n.unwrap(), out, out.len() as int),
+        bucket_consistent(bucket, o),
+    ensures forall|j: int| 0 <= j < bucket.len() && #[trigger] unit_under(&bucket[j], o) ==> n.is_some() && n.unwrap().act().contains(unit_var(&bucket[j], o))
+{
+    assert forall|i: int, j: int| 0 <= i < j < out.len() && out[i].0 == out[j].0 implies out[i].1 == out[j].1 by {
+        assert(from_unit(bucket, bucket.len() as int, o, out[i])); assert(from_unit(bucket, bucket.len() as int, o, out[j]));
+        let a = choose|a: int| 0 <= a < bucket.len() && a < bucket.len() && #[trigger] unit_under(&bucket[a], o) && unit_pair(&bucket[a], o) == out[i];
+        let b = choose|b: int| 0 <= b < bucket.len() && b < bucket.len() && #[trigger] unit_under(&bucket[b], o) && unit_pair(&bucket[b], o) == out[j];
+        assert(unit_var(&bucket[a], o) as usize == out[i].0 && unit_var(&bucket[b], o) as usize == out[j].0);
+        assert(unit_var(&bucket[a], o) == unit_var(&bucket[b], o));
+    }
+    assert(pairs_consistent(out, out.len() as int));
+    assert forall|j: int| 0 <= j < bucket.len() && #[trigger] unit_under(&bucket[j], o) implies n.is_some() && n.unwrap().act().contains(unit_var(&bucket[j], o)) by {
+        let m = choose|m: int| 0 <= m < out.len() && out[m] == unit_pair(&bucket[j], o);
+        assert(out.len() > 0);
+        assert(n.unwrap().act().contains(out[m].0 as u32));
+    }
+}
+// unit propagation is complete for every eligible bucket whose conclusions do not contradict each other
+pub open spec fn prop_complete(store: Seq<Vec<NoGood>>, o: &NoGood, r: &NoGood, upto: int) -> bool {
+    forall|b: int, j: int| 0 <= b < upto && b < store.len() && b <= o.act().len() && 0 <= j < store[b]@.len() && #[trigger] unit_under(&store[b]@[j], o) && bucket_consistent(store[b]@, o)
+        ==> r.act().contains(unit_var(&store[b]@[j], o))
+}
+pub proof fn lemma_unit_var_in(n: &NoGood, o: &NoGood)
+    requires unit_under(n, o),
+    ensures n.act().contains(unit_var(n, o)), !o.act().contains(unit_var(n, o))
+{
+    let d = n.act().difference(o.act());
+    vstd::set::lemma_set_choose_len(d);
+    assert(d.contains(d.choose()));
+}
+// no stored nogood of an eligible, conflict-free bucket is unit under the interpretation with its open variable inside the vector:
+// the nogood closure has nothing (more) to derive there
+pub open spec fn no_unit_tv(store: Seq<Vec<NoGood>>, tv: Seq<Term>) -> bool {
+    forall|g: NoGood, b: int, j: int| is_tv(&g, tv) && 0 <= b < store.len() && b <= g.act().len() && 0 <= j < store[b]@.len() && #[trigger] unit_under(&store[b]@[j], &g) && bucket_consistent(store[b]@, &g)
+        ==> unit_var(&store[b]@[j], &g) >= tv.len()
+}
+pub proof fn lemma_no_unit(store: Seq<Vec<NoGood>>, tv: Seq<Term>, g0: &NoGood, n: &NoGood)
+    requires is_tv(g0, tv), prop_complete(store, g0, n, store.len() as int),
+        forall|i: int| 0 <= i < tv.len() && n.act().contains(i as u32) ==> !und(#[trigger] tv[i]),
+    ensures no_unit_tv(store, tv)
+{
+    assert forall|g: NoGood, b: int, j: int| is_tv(&g, tv) && 0 <= b < store.len() && b <= g.act().len() && 0 <= j < store[b]@.len() && #[trigger] unit_under(&store[b]@[j], &g) && bucket_consistent(store[b]@, &g)
+        implies unit_var(&store[b]@[j], &g) >= tv.len() by {
+        assert(g.act() =~= g0.act()); assert(g.val() =~= g0.val());
+        let x = &store[b]@[j];
+        assert(unit_under(x, g0));
+        let bk = store[b]@;
+        assert forall|i: int, k: int| 0 <= i < bk.len() && 0 <= k < bk.len() && #[trigger] unit_under(&bk[i], g0) && #[trigger] unit_under(&bk[k], g0) && unit_var(&bk[i], g0) == unit_var(&bk[k], g0)
+            implies unit_pair(&bk[i], g0).1 == unit_pair(&bk[k], g0).1 by {
+            assert(unit_under(&bk[i], &g) && unit_under(&bk[k], &g));
+            assert(unit_var(&bk[i], &g) == unit_var(&bk[i], g0) && unit_var(&bk[k], &g) == unit_var(&bk[k], g0));
+        }
+        assert(bucket_consistent(store[b]@, g0));
+        assert(unit_var(x, &g) == unit_var(x, g0));
+        let uv = unit_var(x, g0);
+        lemma_unit_var_in(x, g0);
+        if uv < tv.len() { assert(n.act().contains(uv)); assert(!und(tv[uv as int])); assert(g0.act().contains(uv)); }
+    }
+}
